@@ -3,7 +3,7 @@
 import glob, json, os, sys
 old, commit = sys.argv[1], sys.argv[2]
 ROOT = os.path.dirname(os.path.dirname(os.path.abspath(__file__)))
-for f in sorted(glob.glob(os.path.join(old, "seeded", "C*-[45]", "meta.json"))):
+for f in sorted(glob.glob(os.path.join(old, "seeded", sys.argv[3] if len(sys.argv) > 3 else "C*-[45]", "meta.json"))):
     name = os.path.basename(os.path.dirname(f))
     m_old = json.load(open(f))
     c = m_old.get("confirmed_by_verifier")
